@@ -280,7 +280,7 @@ class Text(ExcelType):
 @register
 class Boolean(ExcelType):
 
-    native_types = (bool,)
+    native_types = (bool, numpy.bool_)
     sort_precedence = 2
     datetime_true = datetime.datetime(1999, 12, 31)
     datetime_false = datetime.datetime(1999, 12, 30)
